@@ -5,6 +5,7 @@ import (
 	"encoding/json"
 	"fmt"
 	"path/filepath"
+	"regexp"
 	"sort"
 	"strings"
 
@@ -47,10 +48,10 @@ type c10Meta struct {
 	// CrossCombo: some allOf/anyOf branch $ref points into another file (its
 	// properties are merged into the referrer: known finding KF-C10-2)
 	CrossCombo bool              `json:"crossfile_combinator"`
-	PkgOf      map[string]string `json:"pkg_of"`    // tag -> package (base name) its id maps to
+	PkgOf      map[string]string `json:"pkg_of"`               // tag -> package (base name) its id maps to
 	ClashDefs  []string          `json:"clash_defs,omitempty"` // name-clash definitions of the world (KF-C10-4/5 scope)
-	OutOf      map[string]string `json:"out_of"`    // tag -> output file ("-" = stdout) its id maps to in these runs
-	RecCombo   bool              `json:"rec_combo"` // a reference cycle runs through an allOf/anyOf branch
+	OutOf      map[string]string `json:"out_of"`               // tag -> output file ("-" = stdout) its id maps to in these runs
+	RecCombo   bool              `json:"rec_combo"`            // a reference cycle runs through an allOf/anyOf branch
 	// MergedRel: the target of such a ref itself contains a relative $ref (fragment or
 	// relative file name): merged into the referrer it loses its document context.
 	MergedRel bool `json:"merged_target_has_relative_ref"`
@@ -474,6 +475,10 @@ func (p c10) Eval(c *Case, outs []*Out) []Discrepancy {
 						}
 					}
 					add("A", "combinator-ref-bound-to-wrong-target:"+r.Spelling+relSuffix(meta), fmt.Sprintf("%s branch $ref %q in %s (property %q) should merge %s but the field type %s carries %s", r.Combo, r.Ref, r.FromTag, r.Prop, toMk, ft, actual))
+				} else if cbs := cbTags(txt); r.CB != "" && txt != "" && (len(cbs) != 1 || cbs[0] != r.CB) {
+					// the merged struct is target + its own extra branch; a cb_ marker of ANOTHER composition in it means
+					// that merging wrote into a schema node shared with that other composition
+					add("A", "combinator-merge-leaks-between-compositions", fmt.Sprintf("%s over $ref %q in %s (property %q, own branch marker %s): the merged type %s carries branch markers %v", r.Combo, r.Ref, r.FromTag, r.Prop, r.CB, ft, cbs))
 				}
 				continue
 			}
@@ -508,6 +513,22 @@ func (p c10) Eval(c *Case, outs []*Out) []Discrepancy {
 		}
 	}
 	return dedupe(ds)
+}
+
+var cbTagRe = regexp.MustCompile(`:"(cb_[A-Za-z0-9_]+)[",]`)
+
+// cbTags lists the distinct cb_ branch markers among the field tags of a declaration.
+func cbTags(txt string) []string {
+	seen := map[string]bool{}
+	var out []string
+	for _, m := range cbTagRe.FindAllStringSubmatch(txt, -1) {
+		if !seen[m[1]] {
+			seen[m[1]] = true
+			out = append(out, m[1])
+		}
+	}
+	sort.Strings(out)
+	return out
 }
 
 func tailArgs(a []string) []string {
